@@ -202,6 +202,10 @@ def as_index(index):
 
 
 def bound_check(index, shape):
+    if len(index) > len(shape):
+        raise IndexError(
+            f"index {index} has more components than dimensions of {shape}"
+        )
     for ii, ss in zip(index, shape):
         if ii < 0 or ii >= ss:
             raise IndexError(f"index {index} outside shape {shape}")
